@@ -1,6 +1,7 @@
 (* C01: pacers.  Kind 1: one ConstantPacer.Pace call; kind 2: a closed loop in virtual time. *)
 From Coq Require Import ZArith List Bool.
-From V Require Import Base.Wire Base.Approx Model.Pacer.
+From Coq Require Import QArith Qround.
+From V Require Import Base.Wire Base.Approx Model.Pacer Model.LinearPacer.
 Import ListNotations.
 Open Scope Z_scope.
 Open Scope rd_scope.
@@ -104,8 +105,76 @@ Definition check_loop : rd verdict :=
                    if outcome_eqb mfin fin then VOk else VDiff 31 (outcome_wire mfin ++ outcome_wire fin) ] in
   ret (combine_verdicts [vprop; vdiff]).
 
+(* ---- linear pacer: closed loop, every call recorded ----------------------------------------- *)
+Definition fl_to_q (f : fl) : Q := let '(a, b) := fl_frac f in Qred (Qmake a (Z.to_pos b)).
+Definition qabs (x : Q) : Q := if Qle_bool 0%Q x then x else Qopp x.
+(* float evaluation of the schedule is trusted to 2^-30 relative *)
+Definition hband (e : Q) : Q := ((1 + qabs e) / inject_Z (2 ^ 30))%Q.
+
+Definition getcall : rd (Z * Z * outcome) := tc <- getz ;; k <- getz ;; o <- getoutcome ;; ret (tc, k, o).
+
+(* one recorded call: the property clauses and the comparison with the model, sharing the two
+   evaluations of the schedule *)
+Definition lin_call (F P : Z) (a : Q) (c : Z * Z * outcome) : verdict * verdict :=
+  let '(tc, k, o) := c in
+  let b := lin_b F P in
+  let e := Qred (lin_H a b tc) in
+  let vprop :=
+    match o with
+    | Panic => VProp 40 [tc; k]
+    | Stop => VOk
+    | Wait w =>
+        let tr := tc + Z.max w 0 in
+        let er := Qred (lin_H a b tr) in
+        (* decreasing rate: the tangent step is accurate while rate^2 >= 4 |slope| delta^2
+           (linear_contract_neg_partial); beyond that regime the known finding applies *)
+        let r := lin_rate a b tc in
+        let d := (inject_Z (k + 1) - e)%Q in
+        let accurate := Qle_bool 0 a || (negb (Qle_bool r 0) && Qle_bool (4 * qabs a * (d * d)) (r * r))%Q in
+        combine_verdicts
+          [ (* releasing the hit keeps the count within one hit of the schedule *)
+            prop_ok (if Qle_bool 0 a then 41 else if accurate then 45 else 41)
+                    (Qle_bool (inject_Z (k + 1)) (er + 1 + hband er)%Q) [tc; k; w];
+            (* a positive wait only when on or ahead of the schedule *)
+            prop_ok 42 (negb (0 <? w) || (Qfloor (e - hband e)%Q <=? k)) [tc; k; w] ]
+    end in
+  let near := Qle_bool (qabs (e - inject_Z (Qfloor (e + (1 # 2))))%Q) (hband e) in
+  let vdiff :=
+    match lin_pace F P a tc k, o with
+    | LUndef, _ => VDontCare
+    | LWait mw, Wait w =>
+        let d := (inject_Z (k + 1) - e)%Q in
+        if Qle_bool (inject_Z (Z.abs (mw - w))) (3 + qabs d + inject_Z (Z.abs mw) / inject_Z (2 ^ 36))%Q then VOk
+        else if ((mw =? 0) || (w =? 0)) && near then VDontCare
+        else VDiff 50 [tc; k; mw; w]
+    | LStop, Stop => VOk
+    | LStop, Wait w => VDiff 52 [tc; k; w]
+    | LWait mw, Stop => VDiff 53 [tc; k; mw]
+    | _, Panic => VOk
+    end in
+  (vprop, vdiff).
+
+Definition check_lin_loop : rd verdict :=
+  F <- getz ;; P <- getz ;; slope <- getfl ;; calls <- getlist getcall ;;
+  rates <- getlist (getpair getz getfl) ;;
+  let a := fl_to_q slope in
+  let degenerate := (P =? 0) || (F =? 0) in
+  let negative := negb degenerate && ((P <? 0) || (F <? 0)) in
+  let judged := if degenerate || negative then [] else map (lin_call F P a) calls in
+  let vprop :=
+    if degenerate then combine_verdicts (map (fun '(tc, k, o) => prop_ok 44 (outcome_eqb o (Wait 0)) [tc; k]) calls)
+    else if negative then combine_verdicts (map (fun '(tc, k, o) => prop_ok 43 (outcome_eqb o Stop) [tc; k]) calls)
+    else combine_verdicts (map fst judged) in
+  let vdiff := combine_verdicts
+    (map snd judged ++
+     map (fun '(t, r) => if degenerate || negative then VOk else
+            let m := lin_rate a (lin_b F P) t in
+            if approx_eq_bits 30 (Qnum m) (Zpos (Qden m)) r || Qle_bool (qabs m) (1 # 1000000)%Q then VOk else VDiff 51 [t]) rates) in
+  ret (combine_verdicts [vprop; vdiff]).
+
 Definition check : rd verdict :=
   kind <- getz ;;
   if kind =? 1 then check_call
   else if kind =? 2 then check_loop
+  else if kind =? 3 then check_lin_loop
   else fail.
